@@ -375,6 +375,15 @@ class SSPOC(BaseEstimator):
                 "were passed so threshold will be ignored"
             )
 
+        if xy is not None:
+            # Check the refit data before anything is changed: a request that is
+            # rejected must leave the selected sensors as they were.
+            x_refit = np.asarray(xy[0])
+            if x_refit.ndim != 2 or x_refit.shape[1] != len(self.sensor_coef_):
+                raise ValueError(
+                    f"xy[0] should have shape (n_samples, {len(self.sensor_coef_)})"
+                )
+
         if n_sensors is None and threshold is None:
             raise ValueError("At least one of n_sensors or threshold must be passed.")
 
@@ -386,7 +395,6 @@ class SSPOC(BaseEstimator):
                     f"n_sensors({n_sensors}) cannot exceed number of available "
                     f"sensors ({len(self.sensor_coef_)})"
                 )
-            self.n_sensors = n_sensors
             # Could be made more efficient with a max heap
             # (we don't need to sort the whole list)
             if np.ndim(self.sensor_coef_) == 1:
@@ -415,10 +423,11 @@ class SSPOC(BaseEstimator):
                         "Some uninformative sensors were selected. "
                         "Consider decreasing n_sensors"
                     )
+            # Assigned together, once the ranking has been computed
+            self.n_sensors = n_sensors
             self.sparse_sensors_ = sorted_sensors[:n_sensors]
 
         else:
-            self.threshold = threshold
             if np.ndim(self.sensor_coef_) == 1:
                 sparse_sensors = np.nonzero(np.abs(self.sensor_coef_) >= threshold)[0]
             else:
@@ -426,6 +435,7 @@ class SSPOC(BaseEstimator):
                     method(np.abs(self.sensor_coef_), axis=1, **method_kws) >= threshold
                 )[0]
 
+            self.threshold = threshold
             self.n_sensors = len(sparse_sensors)
             self.sparse_sensors_ = sparse_sensors
 
